@@ -6,7 +6,7 @@
 From Coq Require Import NArith ZArith List Bool String Lia.
 From LC Require Model.Keyboard.
 From LC Require Import Base.Lib Gen.Keyboard_gen Gen.Capi_gen Gen.Editor_gen Model.Composition Model.Conversion Model.Editor
-     Model.EditorRun Model.EdInst Model.CapiKeys
+     Model.EditorRun Model.EdInst Model.CapiKeys Model.CapiConfig Model.CapiRun
      Proofs.CompositionProofs Proofs.EdInstProofs Proofs.EditorInv Proofs.NoPanic Proofs.KeyboardProofs Proofs.KeyEventsOk.
 Import ListNotations.
 
@@ -87,6 +87,48 @@ Qed.
 Lemma drop_rc_fine {A} (r : outcome (cctx * A)) : fine r -> fine (drop_rc r).
 Proof. destruct r; cbn; auto. Qed.
 
+(* chewing_config_set_int: whatever the name and the int, the options it installs keep the page size >= 1
+   (candidates_per_page accepts 1..10; every other arm leaves the field alone) *)
+Lemma apply_iopt_per_page o v op eng op' eng' : set_int_global_reject v = false ->
+  Config.apply_iopt o v op eng = Some (op', eng') -> (1 <= Config.candidates_per_page op)%Z ->
+  (1 <= Config.candidates_per_page op')%Z.
+Proof.
+  intros Hg H Hp. unfold set_int_global_reject in Hg. apply Z.ltb_ge in Hg.
+  destruct o; cbn [Config.apply_iopt] in H;
+    try (match type of H with
+         | match ?x with _ => _ end = _ => destruct x as [y|]; [|discriminate]; inversion H; subst; cbn; exact Hp
+         end).
+  - (* candidates_per_page *)
+    unfold set_int_reject_candidates_per_page in H. destruct ((v =? 0) || (v >? 10))%Z eqn:E; [discriminate|].
+    inversion H; subst. cbn. apply orb_false_iff in E as (E1 & _). apply Z.eqb_neq in E1. lia.
+  - (* auto_commit_threshold *)
+    destruct (set_int_reject_auto_commit_threshold v); [discriminate|]. inversion H; subst. cbn. exact Hp.
+  - (* conversion_engine *)
+    destruct (Config.assocZ v set_int_engine) as [[kind [inst strat]]|]; [|discriminate]. inversion H; subst. cbn. exact Hp.
+Qed.
+
+Lemma config_set_int_ok c name v : CInv c ->
+  fine (config_set_int_c c name v) /\ forall c' rc, config_set_int_c c name v = Ok (c', rc) -> CInv c'.
+Proof.
+  intros Hc. pose proof Hc as [Hi Hk]. unfold config_set_int_c.
+  destruct (set_int_global_reject v) eqn:Hg; [split; [exact I | intros c' rc H; inversion H; subst; exact Hc]|].
+  destruct (Config.parse_iopt name) as [o|]; [|split; [exact I | intros c' rc H; inversion H; subst; exact Hc]].
+  destruct (Config.apply_iopt o v (of_ed_options (opts (sh (cx_ed c)))) (engine_to_N (engine (sh (cx_ed c))))) as [[op' eng']|] eqn:Ea;
+    [|split; [exact I | intros c' rc H; inversion H; subst; exact Hc]].
+  assert (Hper : (1 <= o_per_page (to_ed_options op'))%nat).
+  { cbn [to_ed_options o_per_page].
+    assert (1 <= Config.candidates_per_page op')%Z; [|lia].
+    eapply apply_iopt_per_page; [exact Hg | exact Ea|]. cbn [of_ed_options Config.candidates_per_page].
+    destruct Hi as [[_ _ _ Hp] _]. lia. }
+  set (e1 := ml_set_engine (cx_ed c) (engine_of_N eng')).
+  assert (H1 : EInv e1) by (eapply (e_step_inv (cx_ed c) (OpSetEngine (engine_of_N eng'))); [exact I | exact Hi | reflexivity]).
+  unfold ml_set_options.
+  pose proof (e_fine_step e1 (OpSetOptions (to_ed_options op')) Hper H1) as F. cbn [step] in F.
+  destruct (ed_set_options_c md_ops lay_ops e1 (to_ed_options op')) as [e2| | |] eqn:Es; try (split; [exact F | intros c' rc H; discriminate H]).
+  split; [exact I|]. intros c' rc H. inversion H; subst c' rc. constructor; cbn [cx_ed cx_kb with_ed]; [|exact Hk].
+  eapply (e_step_inv e1 (OpSetOptions (to_ed_options op'))); [exact Hper | exact H1 | exact Es].
+Qed.
+
 Theorem cstep_ok c o : cop_fine o -> CInv c ->
   fine (cstep conv c o) /\ forall c', cstep conv c o = Ok c' -> CInv c'.
 Proof.
@@ -154,6 +196,24 @@ Proof.
   - (* chewing_Reset *)
     split; [exact I|]. intros c' H. inversion H; subst c'. unfold reset. constructor; cbn [cx_ed cx_kb with_ed]; [|exact Hk].
     eapply (e_step_inv (cx_ed c) OpClear); [exact I | exact Hi | reflexivity].
+  - (* chewing_config_set_int, any name, any int *)
+    destruct (config_set_int_ok c name value Hc) as (F & K).
+    destruct (config_set_int_c c name value) as [[c1 rc]| | |] eqn:Es; cbn [drop_rc fst]; try (split; [exact F | intros c' H; discriminate H]).
+    split; [exact I|]. intros c' H. inversion H; subst c'. eapply K; reflexivity.
+  - (* chewing_userphrase_add, any two strings *)
+    unfold userphrase_add. destruct (Nat.ltb 11 _); [split; [exact I | intros c' H; inversion H; subst; exact Hc]|].
+    unfold ml_learn.
+    pose proof (e_fine_step (cx_ed c) (OpLearn (parse_bopomofo bopomofo) phrase) I Hi) as F. cbn [step] in F. unfold fst_ok in F.
+    destruct (ed_learn_c md_ops lay_ops (cx_ed c) (parse_bopomofo bopomofo) phrase) as [[e b]| | |] eqn:Es; cbn [drop_rc fst]; try (split; [exact F | intros c' H; discriminate H]).
+    split; [exact I|]. intros c' H. inversion H; subst c'. constructor; cbn [cx_ed cx_kb with_ed]; [|exact Hk].
+    eapply (e_step_inv (cx_ed c) (OpLearn (parse_bopomofo bopomofo) phrase)); [exact I | exact Hi |]. cbn [step]. now rewrite Es.
+  - (* chewing_userphrase_remove *)
+    unfold userphrase_remove. destruct (negb _); [split; [exact I | intros c' H; inversion H; subst; exact Hc]|].
+    unfold ml_unlearn.
+    pose proof (e_fine_step (cx_ed c) (OpUnlearn (parse_bopomofo bopomofo) phrase) I Hi) as F. cbn [step] in F.
+    destruct (ed_unlearn_c md_ops lay_ops (cx_ed c) (parse_bopomofo bopomofo) phrase) as [e| | |] eqn:Es; cbn [drop_rc fst]; try (split; [exact F | intros c' H; discriminate H]).
+    split; [exact I|]. intros c' H. inversion H; subst c'. constructor; cbn [cx_ed cx_kb with_ed]; [|exact Hk].
+    eapply (e_step_inv (cx_ed c) (OpUnlearn (parse_bopomofo bopomofo) phrase)); [exact I | exact Hi | exact Es].
   - (* an operation of the editor itself *)
     pose proof (e_fine_step (cx_ed c) o Ho Hi) as F.
     destruct (step md_ops lay_ops conv (cx_ed c) o) as [e| | |] eqn:Es; try (split; [exact F | intros c' H; discriminate H]).
